@@ -21,6 +21,10 @@ request; the body description is evaluated with the real encoders and compared w
 Scope (see Props/C17.lean): at most one Accept and one Accept-Encoding field line is in scope of the agreement oracle;
 repeated field lines are exercised for the correspondence only (MetricsHandler reads the first line only).  Blank `name[]`
 values do not count as values (parse_qs drops them).  Media types are compared case-sensitively, codings case-insensitively.
+Query strings are ASCII (percent-escapes for everything else), handed to ASGI as latin-1 bytes.
+
+Two failure classes have their own signatures because they were real defects of asgi.py (repaired in /repo, commit 14bb0ad):
+`C17:asgi-ignores-name-param` and `C17:asgi-raises-on-non-ascii-query`.  They are ordinary failures: a recurrence is a VIOLATION.
 """
 import gzip
 import http.client
@@ -214,7 +218,7 @@ class World:
                 + [(case['aen'], v) for v in (case['ae'] or [])])
 
     def run_asgi(self, case, disable):
-        scope = {'type': 'http', 'method': case['method'], 'path': case['path'] or '', 'query_string': case['q'].encode('utf-8'),
+        scope = {'type': 'http', 'method': case['method'], 'path': case['path'] or '', 'query_string': case['q'].encode('latin-1'),
                  'headers': [(n.encode('utf-8'), v.encode('utf-8')) for n, v in self.fields(case)]}
         sent = []
 
@@ -520,7 +524,7 @@ def driver_line(case, disable):
     pstr = parse_qs(case['q'])
     ps = lib.enc_list(['%s>%s' % (lib.hx(k), ','.join(lib.hx(v) for v in vs)) for k, vs in pstr.items()])
     try:
-        pbytes = parse_qs(case['q'].encode('utf-8'))
+        pbytes = parse_qs(case['q'].encode('latin-1'))
         pb = lib.enc_list(['%s>%s' % (lib.xb(k), ','.join(lib.xb(v) for v in vs)) for k, vs in pbytes.items()])
     except UnicodeError:
         pb = '!'        # parse_qs(<bytes>) raises on non-ASCII escapes / bytes (a fact about the standard library)
@@ -612,6 +616,8 @@ def eval_case(world, case):
                 if 'error' in r: return ('error', r['error'])
                 return (str(r['status'])[:3], hval(r, 'Content-Type'), hval(r, 'Content-Encoding'), decoded_body(r)[0])
             law = urlparse(case['path'] + '?' + case['q']).query == case['q']
+            if case['q'].encode('latin-1').decode('latin-1') != case['q']:      # library law `hdec` of frontends_agree
+                raise lib.Infra('latin-1 round trip failed for %r' % case['q'])
             if not law:
                 notes.append('urlparse-law-excluded')
             group = [('wsgi', res['wsgi', False])]
